@@ -100,6 +100,8 @@ impl<R: Registry> VxRawTable<R> {
     pub fn vx_keys(&self) -> (r: Ghost<Seq<archetype::IdentifierRef<R>>>)
         ensures self.enumerates(r@), r@.len() <= usize::MAX { unimplemented!() }
     #[verifier::external_body]
+    pub fn len(&self) -> (n: usize) { unimplemented!() }
+    #[verifier::external_body]
     pub fn vx_len(&self, keys: Ghost<Seq<archetype::IdentifierRef<R>>>) -> (n: usize)
         requires self.enumerates(keys@),
         ensures n == keys@.len() { unimplemented!() }
@@ -153,8 +155,82 @@ impl<R: Registry> VxTypeMap<R> {
     #[verifier::external_body]
     pub fn insert(&mut self, t: TypeId, value: archetype::IdentifierRef<R>)
         ensures final(self)@ == old(self)@.insert(t, value) { unimplemented!() }
+    /// R14: ghost enumeration of the entries
+    pub open spec fn enumerates(&self, ts: Seq<TypeId>) -> bool {
+        forall|t: TypeId| self@.dom().contains(t) == ts.contains(t)
+    }
+    #[verifier::external_body]
+    pub fn vx_keys(&self) -> (r: Ghost<Seq<TypeId>>) ensures self.enumerates(r@), r@.len() <= usize::MAX { unimplemented!() }
+    #[verifier::external_body]
+    pub fn vx_len(&self, ts: Ghost<Seq<TypeId>>) -> (n: usize) requires self.enumerates(ts@), ensures n == ts@.len() { unimplemented!() }
+    #[verifier::external_body]
+    pub fn vx_nth_pair(&self, i: usize, ts: Ghost<Seq<TypeId>>) -> (r: (TypeId, &archetype::IdentifierRef<R>))
+        requires self.enumerates(ts@), i < ts@.len(),
+        ensures r.0 == ts@[i as int], *r.1 == self@[ts@[i as int]] { unimplemented!() }
 }
 
+// ---- hashbrown::HashMap<IdentifierRef, IdentifierRef> (the key map of clone / clone_from) ----
+#[verifier::external_body]
+#[verifier::accept_recursive_types(R)]
+pub struct VxKeyMap<R: Registry> { p: PhantomData<R> }
+impl<R: Registry> VxKeyMap<R> {
+    pub uninterp spec fn view(&self) -> IMap<archetype::IdentifierRef<R>, archetype::IdentifierRef<R>>;
+    #[verifier::external_body]
+    pub fn vx_with_capacity(n: usize) -> (r: Self)
+        ensures r@ == IMap::<archetype::IdentifierRef<R>, archetype::IdentifierRef<R>>::empty() { unimplemented!() }
+    #[verifier::external_body]
+    pub fn insert(&mut self, k: archetype::IdentifierRef<R>, v: archetype::IdentifierRef<R>)
+        ensures final(self)@ == old(self)@.insert(k, v) { unimplemented!() }
+    #[verifier::external_body]
+    pub fn get(&self, k: &archetype::IdentifierRef<R>) -> (r: Option<&archetype::IdentifierRef<R>>)
+        ensures r == (if self@.dom().contains(*k) { Some(&self@[*k]) } else { None::<&archetype::IdentifierRef<R>> }) { unimplemented!() }
+    /// `map.values().collect::<HashSet<_>>()`
+    #[verifier::external_body]
+    pub fn vx_values(&self) -> (r: VxTokenSet<R>)
+        ensures forall|t: archetype::IdentifierRef<R>| #[trigger] r@.contains(t) == (exists|k: archetype::IdentifierRef<R>| self@.dom().contains(k) && self@[k] == t) { unimplemented!() }
+}
+#[verifier::external_body]
+#[verifier::accept_recursive_types(R)]
+pub struct VxTokenSet<R: Registry> { p: PhantomData<R> }
+impl<R: Registry> VxTokenSet<R> {
+    pub uninterp spec fn view(&self) -> ISet<archetype::IdentifierRef<R>>;
+    #[verifier::external_body]
+    pub fn contains(&self, t: &archetype::IdentifierRef<R>) -> (b: bool) ensures b == self@.contains(*t) { unimplemented!() }
+}
+
+/// `c` is a value copy of table `t` under key `k2` (C10): same identifiers, same rows, same
+/// component set
+pub open spec fn vx_table_copy<R: Registry>(c: archetype::Archetype<R>, t: archetype::Archetype<R>, k2: archetype::IdentifierRef<R>) -> bool {
+    c.wf() && c.key() == k2 && c.length == t.length && c.ids() == t.ids() && c.rows() == t.rows() && vx_key_bits(k2) == vx_key_bits(t.key())
+}
+/// the old-key -> new-key map returned by Archetypes::clone / clone_from
+pub open spec fn vx_is_key_map<R: Registry>(
+    map: IMap<archetype::IdentifierRef<R>, archetype::IdentifierRef<R>>,
+    src: IMap<archetype::IdentifierRef<R>, archetype::Archetype<R>>,
+    dst: IMap<archetype::IdentifierRef<R>, archetype::Archetype<R>>) -> bool {
+    &&& forall|k: archetype::IdentifierRef<R>| src.dom().contains(k) ==>
+            #[trigger] map.dom().contains(k) && dst.dom().contains(map[k]) && vx_table_copy(dst[map[k]], src[k], map[k])
+    &&& forall|k1: archetype::IdentifierRef<R>, k2: archetype::IdentifierRef<R>|
+            src.dom().contains(k1) && src.dom().contains(k2) && #[trigger] map[k1] == #[trigger] map[k2] ==> k1 == k2
+    &&& forall|k2: archetype::IdentifierRef<R>| #[trigger] dst.dom().contains(k2) ==>
+            dst[k2].wf() && dst[k2].key() == k2 &&
+            ((exists|k: archetype::IdentifierRef<R>| src.dom().contains(k) && map[k] == k2) || dst[k2].length == 0)
+}
+
+// ---- Archetype::clone / clone_from: assumed contracts, checked (bounded) by family K-clone ----
+#[verifier::external_body]
+pub fn vx_archetype_clone<R: Registry>(a: &archetype::Archetype<R>) -> (r: archetype::Archetype<R>)
+    requires a.wf(),
+    ensures r.wf(), r.length == a.length, r.ids() == a.ids(), r.rows() == a.rows(), vx_key_bits(r.key()) == vx_key_bits(a.key()) { unimplemented!() }
+#[verifier::external_body]
+pub fn vx_archetype_clone_from<R: Registry>(a: &mut archetype::Archetype<R>, source: &archetype::Archetype<R>)
+    requires old(a).wf(), source.wf(),
+    ensures final(a).wf(), final(a).key() == old(a).key(), final(a).length == source.length, final(a).ids() == source.ids(), final(a).rows() == source.rows() { unimplemented!() }
+
+/// every stored table is well formed
+pub open spec fn vx_tables_wf<R: Registry>(m: IMap<archetype::IdentifierRef<R>, archetype::Archetype<R>>) -> bool {
+    forall|k: archetype::IdentifierRef<R>| m.dom().contains(k) ==> (#[trigger] m[k]).wf()
+}
 pub open spec fn vx_fresh_table<R: Registry>(a: archetype::Archetype<R>, k: archetype::IdentifierRef<R>, bits: VxBits) -> bool {
     a.wf() && a.length == 0 && a.key() == k && vx_key_bits(k) == bits
 }
@@ -266,6 +342,133 @@ CLEAR_END_PROOF = r'''proof {
             }
         }'''
 
+CF1_PROOF = r'''proof {
+                let i = vx_i1 as int;
+                let k = vx_keys1@[i];
+                let src = source@[k];
+                assert(src.key() == k);
+                let k2 = identifier_map@[k];
+                assert(identifier_map@.dom().contains(k));
+                assert(vx_key_bits(k2) == vx_key_bits(k));
+                assert forall|kk: archetype::IdentifierRef<R>| #[trigger] identifier_map@.dom().contains(kk) implies (exists|j: int| 0 <= j < i + 1 && vx_keys1@[j] == kk) by {
+                    if kk == k { assert(vx_keys1@[i] == kk); } else {
+                        assert(vx_map1.dom().contains(kk));
+                        let j = choose|j: int| 0 <= j < i && vx_keys1@[j] == kk;
+                        assert(0 <= j < i + 1 && vx_keys1@[j] == kk);
+                    }
+                }
+                assert(self@.dom().contains(k2));
+                assert(vx_table_copy(self@[k2], src, k2));
+                assert forall|j: int| 0 <= j < i + 1 implies #[trigger] identifier_map@.dom().contains(vx_keys1@[j]) && self@.dom().contains(identifier_map@[vx_keys1@[j]])
+                    && vx_table_copy(self@[identifier_map@[vx_keys1@[j]]], source@[vx_keys1@[j]], identifier_map@[vx_keys1@[j]]) by {
+                    if j == i {
+                        assert(vx_keys1@[j] == k);
+                        assert(vx_table_copy(self@[identifier_map@[vx_keys1@[j]]], source@[vx_keys1@[j]], identifier_map@[vx_keys1@[j]]));
+                    } else {
+                        // earlier copies are untouched: they live under keys with other component bytes
+                        let kj = vx_keys1@[j];
+                        assert(kj != k);
+                        assert(source@.dom().contains(kj)) by { assert(vx_keys1@.contains(kj)); }
+                        assert(vx_map1.dom().contains(kj));
+                        assert(identifier_map@[kj] == vx_map1[kj]);
+                        assert(vx_s1@.dom().contains(vx_map1[kj]));
+                        assert(vx_table_copy(vx_s1@[vx_map1[kj]], source@[kj], vx_map1[kj]));
+                        assert(source@[kj].key() == kj);
+                        assert(vx_key_bits(vx_map1[kj]) == vx_key_bits(kj));
+                        assert(vx_key_bits(kj) != vx_key_bits(k));
+                        assert(vx_map1[kj] != k2);
+                        assert(self@.dom().contains(vx_map1[kj]));
+                        assert(self@[vx_map1[kj]] == vx_s1@[vx_map1[kj]]);
+                    }
+                }
+                assert(vx_tables_wf(self@)) by {
+                    assert forall|kk: archetype::IdentifierRef<R>| self@.dom().contains(kk) implies (#[trigger] self@[kk]).wf() by {
+                        if kk != k2 { assert(vx_s1@.dom().contains(kk) && self@[kk] == vx_s1@[kk]); }
+                    }
+                }
+            }'''
+
+CF2_PROOF = r'''proof {
+                let i = vx_i2 as int;
+                let k = vx_keys2@[i];
+                assert forall|j: int| i + 1 <= j < vx_n2 implies (#[trigger] self@[vx_keys2@[j]]) == vx_m1@[vx_keys2@[j]] by {
+                    assert(vx_keys2@[j] != k);
+                    assert(vx_s2@[vx_keys2@[j]] == vx_m1@[vx_keys2@[j]]);
+                }
+                assert forall|j: int| 0 <= j < i + 1 implies (#[trigger] self@[vx_keys2@[j]]).wf() && self@[vx_keys2@[j]].key() == vx_keys2@[j]
+                    && (if cloned_archetype_identifiers@.contains(vx_keys2@[j]) { self@[vx_keys2@[j]] == vx_m1@[vx_keys2@[j]] } else { self@[vx_keys2@[j]].length == 0 }) by {
+                    if j < i { assert(vx_keys2@[j] != k); assert(self@[vx_keys2@[j]] == vx_s2@[vx_keys2@[j]]); }
+                    else { assert(vx_m1@[k].wf() && vx_m1@[k].key() == k); }
+                }
+                assert(self@.dom() =~= vx_m1@.dom());
+            }'''
+
+CF3_PRE = r'''let ghost vx_m2 = *self;
+        proof {
+            assert(self@.dom() =~= vx_m1@.dom());
+            assert forall|t: TypeId| #[trigger] self.type_id_lookup@.dom().contains(t) implies
+                self@.dom().contains(self.type_id_lookup@[t]) && vx_key_bits(self.type_id_lookup@[t]) == vx_type_bits(t) by {
+                assert(vx_m1.type_id_lookup@.dom().contains(t));
+            }
+            assert forall|k: archetype::IdentifierRef<R>| #[trigger] source@.dom().contains(k) implies (identifier_map@.dom().contains(k)
+                && self@.dom().contains(identifier_map@[k]) && vx_key_bits(identifier_map@[k]) == vx_key_bits(k)) by {
+                assert(vx_keys1@.contains(k));
+                let j = choose|j: int| 0 <= j < vx_keys1@.len() && vx_keys1@[j] == k;
+                assert(0 <= j < vx_n1);
+                assert(identifier_map@.dom().contains(vx_keys1@[j]) && vx_m1@.dom().contains(identifier_map@[vx_keys1@[j]])
+                    && vx_table_copy(vx_m1@[identifier_map@[vx_keys1@[j]]], source@[vx_keys1@[j]], identifier_map@[vx_keys1@[j]]));
+                assert(source@[k].key() == k);
+            }
+        }'''
+
+CF3_PROOF = r'''proof {
+                let t = vx_keys3@[vx_i3 as int];
+                assert(source.type_id_lookup@.dom().contains(t)) by { assert(vx_keys3@.contains(t)); }
+                assert(source@.dom().contains(source.type_id_lookup@[t]));
+            }'''
+
+CF_END = r'''proof {
+            let map = identifier_map@;
+            assert(self@ == vx_m2@);
+            assert(self@.dom() =~= vx_m1@.dom());
+            // tables after the clearing pass
+            assert forall|k2: archetype::IdentifierRef<R>| #[trigger] self@.dom().contains(k2) implies
+                self@[k2].wf() && self@[k2].key() == k2 && (if cloned_archetype_identifiers@.contains(k2) { self@[k2] == vx_m1@[k2] } else { self@[k2].length == 0 }) by {
+                assert(vx_keys2@.contains(k2));
+                let j = choose|j: int| 0 <= j < vx_keys2@.len() && vx_keys2@[j] == k2;
+                assert(self@[vx_keys2@[j]].wf());
+            }
+            assert forall|k: archetype::IdentifierRef<R>| source@.dom().contains(k) implies
+                #[trigger] map.dom().contains(k) && self@.dom().contains(map[k]) && vx_table_copy(self@[map[k]], source@[k], map[k]) by {
+                assert(vx_keys1@.contains(k));
+                let j = choose|j: int| 0 <= j < vx_keys1@.len() && vx_keys1@[j] == k;
+                assert(map.dom().contains(vx_keys1@[j]));
+                assert(cloned_archetype_identifiers@.contains(map[k]));
+                assert(vx_m1@.dom().contains(map[k]));
+            }
+            assert forall|k1: archetype::IdentifierRef<R>, k2: archetype::IdentifierRef<R>|
+                source@.dom().contains(k1) && source@.dom().contains(k2) && #[trigger] map[k1] == #[trigger] map[k2] implies k1 == k2 by {
+                assert(map.dom().contains(k1) && map.dom().contains(k2));
+                assert(source@[k1].key() == k1 && source@[k2].key() == k2);
+                assert(vx_key_bits(k1) == vx_key_bits(map[k1]));
+                assert(vx_key_bits(k2) == vx_key_bits(map[k2]));
+            }
+            assert forall|k2: archetype::IdentifierRef<R>| #[trigger] self@.dom().contains(k2) implies
+                self@[k2].wf() && self@[k2].key() == k2 && ((exists|k: archetype::IdentifierRef<R>| source@.dom().contains(k) && map[k] == k2) || self@[k2].length == 0) by {
+                if cloned_archetype_identifiers@.contains(k2) {
+                    let k = choose|k: archetype::IdentifierRef<R>| map.dom().contains(k) && map[k] == k2;
+                    let j = choose|j: int| 0 <= j < vx_n1 && vx_keys1@[j] == k;
+                    assert(vx_keys1@.contains(k));
+                    assert(source@.dom().contains(k) && map[k] == k2);
+                }
+            }
+            assert(self.lookups_ok(self@.dom())) by {
+                assert(self.foreign_identifier_lookup == vx_m1.foreign_identifier_lookup);
+                assert(vx_m1.lookups_ok(vx_m1@.dom()));
+            }
+            self.lemma_single_table();
+        }'''
+
 # clause texts shared with unit V-world's assumed contracts (same strings on both sides)
 def lookup_ensures(bits):
     return [
@@ -374,6 +577,63 @@ def build():
                   Hint("end", CLEAR_END_PROOF)],
            props=["C01", "C02", "C13"]),
     ])
+    CIMPL = r"^impl<R> Archetypes<R>\s*where\s*R: registry::Clone,"
+    u.impl("impl<R> Archetypes<R> where R: Registry", [
+        Fn(AS, CIMPL, "clone_from", ret="r", ret_type="VxKeyMap<R>",
+           requires=[("pre.archs_wf", "old(self).wf()"), ("pre.source_wf", "source.wf()"),
+                     ("pre.tables_wf", "vx_tables_wf(old(self)@) && vx_tables_wf(source@)")],
+           ensures=[("C10.clone_from.key_map", "vx_is_key_map(r@, source@, final(self)@)"),
+                    ("C13.clone_from.single_table", "vx_single_table(final(self)@)"),
+                    ("C13.clone_from.wf", "final(self).wf()")],
+           loops=[
+               Loop(invariant=[
+                   ("cf1.enum", "vx_keys1@.len() == vx_n1 && vx_i1 <= vx_n1 && source.raw_archetypes.enumerates(vx_keys1@)"),
+                   ("cf1.wf", "self.wf() && vx_tables_wf(self@) && source.wf() && vx_tables_wf(source@) && vx_single_table(source@)"),
+                   ("cf1.copied", "forall|j: int| 0 <= j < vx_i1 ==> #[trigger] identifier_map@.dom().contains(vx_keys1@[j]) && self@.dom().contains(identifier_map@[vx_keys1@[j]]) && vx_table_copy(self@[identifier_map@[vx_keys1@[j]]], source@[vx_keys1@[j]], identifier_map@[vx_keys1@[j]])"),
+                   ("cf1.map_dom", "forall|k: archetype::IdentifierRef<R>| #[trigger] identifier_map@.dom().contains(k) ==> (exists|j: int| 0 <= j < vx_i1 && vx_keys1@[j] == k)"),
+               ], decreases="vx_n1 - vx_i1"),
+               Loop(invariant=[
+                   ("cf2.enum", "vx_keys2@.len() == vx_n2 && vx_i2 <= vx_n2 && self.raw_archetypes.enumerates(vx_keys2@) && vx_m1.raw_archetypes.enumerates(vx_keys2@)"),
+                   ("cf2.frame", "self@.dom() == vx_m1@.dom() && self.foreign_identifier_lookup == vx_m1.foreign_identifier_lookup && self.type_id_lookup == vx_m1.type_id_lookup"),
+                   ("cf2.done", "forall|j: int| 0 <= j < vx_i2 ==> (#[trigger] self@[vx_keys2@[j]]).wf() && self@[vx_keys2@[j]].key() == vx_keys2@[j] && (if cloned_archetype_identifiers@.contains(vx_keys2@[j]) { self@[vx_keys2@[j]] == vx_m1@[vx_keys2@[j]] } else { self@[vx_keys2@[j]].length == 0 })"),
+                   ("cf2.todo", "forall|j: int| vx_i2 <= j < vx_n2 ==> (#[trigger] self@[vx_keys2@[j]]) == vx_m1@[vx_keys2@[j]]"),
+                   ("cf2.m1", "vx_m1.wf() && vx_tables_wf(vx_m1@)"),
+               ], decreases="vx_n2 - vx_i2"),
+               Loop(invariant=[
+                   ("cf3.enum", "vx_keys3@.len() == vx_n3 && vx_i3 <= vx_n3 && source.type_id_lookup.enumerates(vx_keys3@)"),
+                   ("cf3.frame", "self.raw_archetypes == vx_m2.raw_archetypes && self.foreign_identifier_lookup == vx_m2.foreign_identifier_lookup"),
+                   ("cf3.type_cache", "self.inv_type_cache(self@.dom())"),
+                   ("cf3.map_dom", "forall|k: archetype::IdentifierRef<R>| #[trigger] source@.dom().contains(k) ==> identifier_map@.dom().contains(k)"),
+                   ("cf3.map_in", "forall|k: archetype::IdentifierRef<R>| #[trigger] source@.dom().contains(k) ==> self@.dom().contains(identifier_map@[k])"),
+                   ("cf3.map_bits", "forall|k: archetype::IdentifierRef<R>| #[trigger] source@.dom().contains(k) ==> vx_key_bits(identifier_map@[k]) == vx_key_bits(k)"),
+                   ("cf3.source", "source.wf()"),
+               ], decreases="vx_n3 - vx_i3"),
+           ],
+           hints=[
+               Hint("start", "let ghost vx_a0 = *self; proof { source.lemma_single_table(); }"),
+               Hint("after", "let ghost vx_s1 = *self; let ghost vx_map1 = identifier_map@; proof { self.lemma_single_table(); assert(source@.dom().contains(vx_keys1@[vx_i1 as int])) by { assert(vx_keys1@.contains(vx_keys1@[vx_i1 as int])); } }",
+                    anchor=r"let source_archetype = source\.raw_archetypes\.vx_nth\(vx_i1, vx_keys1\)"),
+               Hint("before", CF1_PROOF, anchor=r"vx_i1 \+= 1;"),
+               Hint("before", "let ghost vx_m1 = *self; proof { assert forall|j: int| 0 <= j < vx_n2 implies (#[trigger] self@[vx_keys2@[j]]) == vx_m1@[vx_keys2@[j]] by { } }", anchor=r"while vx_i2 < vx_n2"),
+               Hint("before", "let ghost vx_s2 = *self; proof { assert(vx_m1@.dom().contains(vx_keys2@[vx_i2 as int])) by { assert(vx_keys2@.contains(vx_keys2@[vx_i2 as int])); } }",
+                    anchor=r"let archetype = self\.raw_archetypes\.vx_nth_mut\(vx_i2, vx_keys2\)"),
+               Hint("before", CF2_PROOF, anchor=r"vx_i2 \+= 1;"),
+               Hint("before", CF3_PRE, anchor=r"while vx_i3 < vx_n3"),
+               Hint("after", CF3_PROOF, anchor=r"let \(type_id, identifier\) = source\.type_id_lookup\.vx_nth_pair\(vx_i3, vx_keys3\)"),
+               Hint("end", CF_END),
+           ],
+           props=["C10", "C13", "C01", "C04"]),
+    ])
+    u.for_rewrites += [
+        (r"for (\w+) in source\.iter\(\)",
+         "let vx_keys# = source.raw_archetypes.vx_keys(); let vx_n# = source.raw_archetypes.vx_len(vx_keys#); let mut vx_i#: usize = 0;",
+         "vx_i# < vx_n#", r"let \1 = source.raw_archetypes.vx_nth(vx_i#, vx_keys#);", "vx_i# += 1;",
+         "R14: `for t in source.iter()` over the hashbrown table -> index loop over a ghost enumeration of its keys"),
+        (r"for \(&type_id, identifier\) in &source\.type_id_lookup",
+         "let vx_keys# = source.type_id_lookup.vx_keys(); let vx_n# = source.type_id_lookup.vx_len(vx_keys#); let mut vx_i#: usize = 0;",
+         "vx_i# < vx_n#", "let (type_id, identifier) = source.type_id_lookup.vx_nth_pair(vx_i#, vx_keys#);", "vx_i# += 1;",
+         "R14: iteration over the TypeId cache -> index loop over a ghost enumeration of its entries"),
+    ]
     u.for_rewrites += [
         (r"for (\w+) in self\.iter_mut\(\)",
          "let vx_keys# = self.raw_archetypes.vx_keys(); let vx_n# = self.raw_archetypes.vx_len(vx_keys#); let mut vx_i#: usize = 0;",
@@ -381,6 +641,12 @@ def build():
          "R14: `for t in self.iter_mut()` over the hashbrown table -> index loop over a ghost enumeration of its keys (every element once, unspecified order)"),
     ]
     u.pre_rewrites += [
+        (r"HashMap::with_capacity_and_hasher\(self\.raw_archetypes\.len\(\), FnvBuildHasher::default\(\)\)", "VxKeyMap::vx_with_capacity(self.raw_archetypes.len())", "R7: the key map is a hashbrown HashMap token -> token"),
+        (r"archetype\.clone_from\(source_archetype\);", "vx_archetype_clone_from(archetype, source_archetype);", "R6: Archetype::clone_from (assumed contract, K-clone)"),
+        (r"source_archetype\.clone\(\)", "vx_archetype_clone(source_archetype)", "R6: Archetype::clone (assumed contract, K-clone)"),
+        (r"#\[allow\(unused_must_use\)\]", "", "attribute dropped"),
+        (r"identifier_map\s*\.values\(\)\s*\.collect::<HashSet<_, FnvBuildHasher>>\(\)", "identifier_map.vx_values()", "R7: set of the key map's values"),
+        (r"drop\(cloned_archetype_identifiers\);", "", "explicit drop of the value set dropped (scope end)"),
         (r"TypeId::of::<E>\(\)", "vx_type_id::<E>()", "R8: TypeId of the canonical entity type"),
         (r"R::create_archetype_identifier\(\)", "vx_create_archetype_identifier::<R, E>()", "R6/R8: canonical identifier of the entity type (K-bits / type-level)"),
         (r"\braw_archetypes\s*\.find\(hash, Self::equivalent_identifier\(\*identifier\)\)\s*\{\s*Some\(archetype_bucket\) => unsafe \{ archetype_bucket\.as_mut\(\) \},",
